@@ -135,6 +135,11 @@ def search(rep: C.Report, tier: str, broken):
     # threshold (Tn ~ 0.739 for these parameters): the LTE root is a hybrid 2-5 % below vJ, where cs+^2(T+) differs from cs+^2(Tn)
     for Tn_ in ((0.77, 0.78, 0.80) if tier == "quick" else (0.73, 0.745, 0.75, 0.76, 0.77, 0.78, 0.79, 0.80, 0.83, 0.86)):
         fams.append((f"soft-highT-sound-speed:c=0.7,Ts=0.8,amp=0.62,cb2=0.22,Tn/Tc={Tn_}", models.SoftEOS(Tn=Tn_)))
+    # the same bag equations of state written in units where all temperatures are small (Tc = 0.01, 0.005: an MeV-scale transition in GeV):
+    # energy densities are then ~1e-8 and below, and nothing may treat them as "close to" each other or to zero
+    for psi_, tfrac_, Tc_ in (((0.9, 0.9, 0.01), (0.8, 0.7, 0.005)) if tier == "quick" else ((0.9, 0.9, 0.01), (0.8, 0.7, 0.005), (0.99, 0.99, 0.01), (0.9, 0.9, 1e-3))):
+        fams.append((f"bag-small-units:psi={psi_},Tn/Tc={tfrac_},Tc={Tc_}",
+                     models.BagEOS(ap=3.0, am=3.0 * psi_, eps=(1.0 - psi_) * Tc_ ** 4, Tn=tfrac_ * Tc_)))
     _manager_scan(rep, tier)
     for name, th in fams:
         try:
